@@ -102,7 +102,7 @@ func GenModel(p *PRNG, size int) *Model {
 		m.Tags = append(m.Tags, t)
 	}
 	for i := p.Intn(2); i > 0; i-- {
-		e := MEnum{Name: uniqueName(p, "en", len(m.Enums)), Body: Pick(p, []string{"[\"a\", \"b\"]", "[1, 2, 3]", "[\n  \"x\", // first\n  \"y\"\n]", "[true, 1, \"s\"]"})}
+		e := MEnum{Name: uniqueName(p, "en", len(m.Enums)), Body: Pick(p, []string{"[\"a\", \"b\"]", "[1, \"a\", 3]", "[\n  \"x\", // first\n  \"a\"\n]", "[true, \"a\", \"s\"]"})}
 		if p.Chance(1, 3) {
 			e.Annotation = Pick(p, annWords)
 		}
@@ -123,7 +123,14 @@ func GenModel(p *PRNG, size int) *Model {
 		case 1:
 			t.S = Schema{Notation: "any"}
 		default:
-			t.S = genObjectSchema(p, m, 2, true)
+			// only earlier, referable types: keeps the type graph acyclic
+			sub := &Model{Enums: m.Enums}
+			for _, u := range m.Types[:i] {
+				if u.S.Notation == "jsight" || u.S.Notation == "regex" {
+					sub.Types = append(sub.Types, u)
+				}
+			}
+			t.S = genObjectSchema(p, sub, 2, true)
 		}
 	}
 	nRes := 1 + p.Intn(size+1)
@@ -313,7 +320,18 @@ func genObjectSchema(p *PRNG, m *Model, depth int, allowRefs bool) Schema {
 	return Schema{Notation: "jsight", Body: b.String(), Uses: uses}
 }
 
+func referable(m *Model) *Model {
+	sub := &Model{Enums: m.Enums}
+	for _, u := range m.Types {
+		if u.S.Notation == "jsight" || u.S.Notation == "regex" {
+			sub.Types = append(sub.Types, u)
+		}
+	}
+	return sub
+}
+
 func genBodySchema(p *PRNG, m *Model) Schema {
+	m = referable(m)
 	switch p.Intn(10) {
 	case 0:
 		return Schema{Notation: "any"}
@@ -536,6 +554,25 @@ func quoteParam(s string) string {
 
 func RenderModel(m *Model, l *Layout) string { return RenderTree(ModelTree(m), l) }
 
+// NodePos: file, 1-based line and byte index of a rendered directive keyword
+type NodePos struct {
+	File  string
+	Line  int
+	Index int
+}
+
+func countNL(s, nl string) int { return strings.Count(s, nl) }
+
+// RenderTreePos renders into `file` and records the position of every node's keyword
+func RenderTreePos(nodes []*DNode, l *Layout, file string, pos map[*DNode]NodePos) string {
+	var b strings.Builder
+	r := &renderer{b: &b, l: l, file: file, lines: pos}
+	for i, n := range nodes {
+		r.node(n, 0, i == 0)
+	}
+	return b.String()
+}
+
 // ExpLex is a lexeme the rendered text is known to contain (type code as in the scan op, byte extent).
 type ExpLex struct {
 	Ty   string
@@ -565,6 +602,8 @@ type renderer struct {
 	openText  int // index into lex of a Text lexeme whose end is the byte before the next keyword / EOF; -1 if none
 	hasOpen   bool
 	afterBody bool
+	file      string
+	lines     map[*DNode]NodePos // where each node's keyword was written
 }
 
 // closeText ends a pending implicit Description text at position `next` (start of the next keyword or ')' or EOF)
@@ -605,6 +644,9 @@ func (r *renderer) node(n *DNode, depth int, first bool) {
 	b.WriteString(ind)
 	r.closeText(b.Len())
 	r.afterBody = false
+	if r.lines != nil {
+		r.lines[n] = NodePos{File: r.file, Line: 1 + countNL(b.String(), l.NL), Index: b.Len()}
+	}
 	r.lex = append(r.lex, ExpLex{"K", b.Len(), b.Len() + len(n.Keyword) - 1})
 	b.WriteString(n.Keyword)
 	for _, p := range n.Params {
